@@ -3,6 +3,7 @@ module verifharness
 go 1.25.0
 
 require (
+	github.com/cenkalti/backoff/v4 v4.3.0
 	github.com/go-faster/errors v0.8.0
 	github.com/gotd/ige v0.3.0
 	github.com/gotd/neo v0.1.5
@@ -11,7 +12,6 @@ require (
 
 require (
 	github.com/andybalholm/brotli v1.2.1 // indirect
-	github.com/cenkalti/backoff/v4 v4.3.0 // indirect
 	github.com/cespare/xxhash/v2 v2.3.0 // indirect
 	github.com/coder/websocket v1.8.15 // indirect
 	github.com/go-faster/jx v1.2.0 // indirect
